@@ -60,7 +60,11 @@ func HarnessC07Component() {
 	var page, want string
 	fail := false
 	vfsWriteFile("templates/components/pair.tw", "{{ a }}/{{ t }}")
-	switch vChoice("page", 6) {
+	vfsWriteFile("templates/components/card.v2.tw", "<v2>{{ t }}</v2>")
+	switch vChoice("page", 7) {
+	case 6: // a component whose file name contains a dot, by alias and by full name
+		page = "@component(\"~card.v2\", {t: x})|@component(\"components/card.v2\", {t: y})"
+		want = "<v2>" + x + "</v2>|<v2>" + y + "</v2>"
 	case 5: // argument values are evaluated at the place of use: t: x reads the page's x although an earlier key is also named x
 		page = "@component(\"~pair\", {a: y, t: a})"
 		data["a"] = x
